@@ -1,0 +1,6 @@
+//! Facade for the RIB unit's metrics (C15): a runner wired to a real
+//! `RibUnitMetrics` the way `RibUnitRunner::new` does it. Re-exports only;
+//! see `units/rib_unit/verif_hooks_ribmetrics.rs`.
+pub use crate::units::rib_unit::unit::verif_hooks_ribmetrics::{
+    merge_update_stats, merge_update_stats_add, mk_runner_with_metrics,
+};
